@@ -80,11 +80,13 @@ fn main() {
         "C13" => go(props::c13::C13, tier, seed, &replay),
         "C14" => go(props::c14::C14, tier, seed, &replay),
         "C15" => go(props::c15::C15, tier, seed, &replay),
+        "C16" => go(props::c16::C16, tier, seed, &replay),
         _ => {
             eprintln!("unknown property {id}");
             std::process::exit(2);
         }
     };
+    props::c16::cleanup();
     let out = r.lines.join("\n");
     if let Some(f) = result_file {
         std::fs::write(f, format!("{out}\n")).expect("write result file");
